@@ -13,6 +13,37 @@ class Machinery(RuntimeError):
     """The check could not do its job (exit 2; never a VIOLATION)."""
 
 
+def generic_replay(pid, path):
+    """re-execute the call that produced a rejected trace on the current tree and validate the new trace with the same
+    trace specification and configuration; None if the file carries no provenance."""
+    import importlib
+    t = json.load(open(path))
+    if not all(k in t for k in ("_case", "_fn", "_tmod", "_cfg")):
+        return None
+    from . import sched
+    sched.install()
+    mod, fn = t["_fn"].split(":")
+    f = getattr(importlib.import_module(mod), fn)
+    case = t["_case"]
+    for k in ("kcont", "vcont"):            # (tuples became lists in JSON)
+        if isinstance(case.get(k), list):
+            case[k] = tuple(case[k])
+    out = f(case)
+    tr = out[t["_sub"]] if isinstance(out, list) and "_sub" in t and t["_sub"] < len(out) else out
+    if isinstance(tr, list):
+        tr = tr[0]
+    for k in ("family", "pair", "kind"):    # labels added by the check after the call
+        if k in t and k not in tr:
+            tr[k] = t[k]
+    print(json.dumps({k: v for k, v in tr.items() if not str(k).startswith("_")}, default=str)[:3000])
+    acc, _, _ = tlc.validate(t["_tmod"], [tr], f"{pid}_replay", t["_cfg"])
+    if 0 in acc:
+        print("replay: trace accepted by the specification")
+        return 0
+    print(f"VIOLATION property={pid} replay={path}")
+    return 1
+
+
 class CheckRun:
     def __init__(self, pid: str, tier: str, rule: str, design_ref: str = ""):
         self.pid, self.tier, self.rule = pid, tier, rule
@@ -41,6 +72,14 @@ class CheckRun:
         t = time.time()
         out = runner.run_cases(fn, cases, warm_cases=warm_cases, **kw)
         self.timing.append(("drive", len(cases), round(time.time() - t, 1)))
+        # provenance for --replay: the call that produced each trace (never shown to TLC)
+        fname = f"{fn.__module__}:{fn.__name__}"
+        for c, r in zip(cases, out):
+            for j, x in enumerate(r if isinstance(r, list) else [r]):
+                if isinstance(x, dict):
+                    x["_case"], x["_fn"] = c, fname
+                    if isinstance(r, list):
+                        x["_sub"] = j
         return out
 
     # ---------------------------------------------------------------- TLC on the spec
@@ -104,14 +143,17 @@ class CheckRun:
         self.traces_ok += len(acc)
         for i, t in enumerate(traces):
             if nontrivial is None or nontrivial(t):
-                k = key(t) if key else json.dumps({x: t[x] for x in t if x not in ("res", "reshi")}, sort_keys=True, default=str)
+                k = key(t) if key else json.dumps({x: t[x] for x in t if x not in ("res", "reshi") and not x.startswith("_")}, sort_keys=True, default=str)
                 self.distinct.add(hashlib.md5(k.encode()).digest()[:8])
         if len(self.samples) < 3 and traces:
             for j in (0, len(traces) // 2, len(traces) - 1):
                 if len(self.samples) < 3:
-                    self.samples.append(traces[j])
+                    self.samples.append({x: v for x, v in traces[j].items() if not str(x).startswith("_")} if isinstance(traces[j], dict) else traces[j])
         rej_idx = [i for i in range(len(traces)) if i not in acc]
         rej = [traces[i] for i in rej_idx]
+        for t in rej:
+            if isinstance(t, dict):
+                t["_tmod"], t["_cfg"] = trace_module, cfg_text
         if rej and diag_cfg:
             sub = rej[:2000]
             _, info, _ = tlc.validate(trace_module, sub, f"{self.pid}_{name}_diag", diag_cfg)
